@@ -539,6 +539,25 @@ TLog = TLogCls()
 def extract_block(fdef, spec, params):
     """-> synthetic FunctionDef whose body is `count` statements of `fdef` starting at the statement whose first source
     line equals `first` (whitespace-insensitive).  Raises StaleContract when not found or ambiguous."""
+    if "inside" in spec:
+        # the block is a prefix of the BODY of a compound statement (anchored like a block of its own): from the body's first statement
+        # up to the `until` / `last` anchor -- statements at the start of the body may change freely
+        outer = extract_block(fdef, dict(spec["inside"], count=1), params).body[0]
+        stmts = list(getattr(outer, "body", []))
+        inner = {k: v for k, v in spec.items() if k in ("until", "last")}
+        if not stmts or not inner:
+            raise StaleContract("block `inside` needs a compound statement and an end anchor")
+        key = "until" if "until" in inner else "last"
+        want_end = _norm(inner[key])
+        ends = [m for m in range(len(stmts)) if _norm(ast.unparse(stmts[m]).splitlines()[0]) == want_end]
+        if not ends:
+            raise StaleContract(f"block end anchor {inner[key]!r} not found inside {spec['inside']['first']!r} in {fdef.name}")
+        body = stmts[:ends[0]] if key == "until" else stmts[:ends[0] + 1]
+        if not body:
+            raise StaleContract("empty block")
+        args = ast.arguments(posonlyargs=[], args=[ast.arg(arg=p) for p in params], kwonlyargs=[], kw_defaults=[], defaults=[])
+        return ast.FunctionDef(name=fdef.name + "#block", args=args, body=body, decorator_list=[], lineno=body[0].lineno,
+                               col_offset=0, end_lineno=body[-1].end_lineno)
     want = _norm(spec["first"])
     hits = []
     for node in ast.walk(fdef):
